@@ -124,7 +124,7 @@ class CompMixin:
             bs = [box(self.materialize(v, st)) for v in items]
             seq = z3.Concat(*[z3.Unit(i) for i in bs]) if len(bs) > 1 else (z3.Unit(bs[0]) if bs else z3.Empty(SeqV))
             r = vref(st.new_list(seq), cls="list")
-            r.note = ("static_items", items)
+            r.note = ("static_items", items, seq)
             return [(st, r)]
         # symbolic: a fresh list whose elements are described by a lazy universal
         src = self.comp_source(c, st)
